@@ -12,13 +12,27 @@ def run(ded, repo, tier):
     specs += [dict(module='contracts.omd', repo=repo, q=q, variant=v, tier=tier, timeout=to, clause_of={'*': 'pair_list_model'})
               for q, vs in m.PUBLIC for v in vs]
     driver.run_parallel(ded, specs)
+    # lemma used by iterkeys(multi=False): M4 for all index pairs, by explicit induction (base and step machine-checked)
+    import time
+    import z3
+    from lib.core import Obligation
+    for name, f in m.m4_induction_lemmas():
+        t0 = time.time()
+        sv = z3.Solver()
+        sv.set('timeout', 20000)
+        sv.add(z3.Not(f))
+        r = sv.check()
+        ded.add(Obligation('lemma: %s' % name, 'OrderedMultiDict.iterkeys[single]', 'pair_list_model', 'lemma',
+                           'proved' if r == z3.unsat else 'refuted' if r == z3.sat else 'unknown', backend='z3', seconds=time.time() - t0))
+    ded.trust('induction principle for the lemma "stamps increase along a cell list for ALL index pairs" (base and step are discharged '
+              'obligations; the conclusion is assumed at the entry of iterkeys(multi=False))')
     ded.assume('keys/values are opaque with total, deterministic, side-effect-free ==/hash; the private sentinel _MISSING is never a key or value')
     ded.trust('builtin dict/list models: map + ghost size, (array, length); len(d) == 0 iff d has no key')
     ded.assume('update/update_extend/addlist take opaque arguments (any mapping, OMD or iterable of pairs / values); list(x) of an '
                'opaque iterable is a list whose items are the same at every traversal; the proved postcondition of update and '
                'update_extend is the invariant (they act only through add / []= / del, whose contracts fix each step)')
     ded.trust('not under contract (bounded only): __init__/copy/pickling, == / !=, itervalues, '
-              'the multi=False readers, __reversed__ and the derived views (todict, counts, inverted, sorted...), QueryParamDict')
+              'iteritems/itervalues with multi=False (iterkeys(multi=False) is under contract), __reversed__ and the derived views (todict, counts, inverted, sorted...), QueryParamDict')
     ded.assume('completeness of the ordered readers is stated as: the walk starts at the oldest and ends at the newest cell, '
                'follows stamp successors, and no live cell lies strictly between two consecutive items; that every pair is '
                'therefore yielded exactly once is a one-line discrete argument that is not mechanised')
